@@ -228,6 +228,7 @@ inductive Out where
   | bitList (l : List Bool)
   | sym (r : Except SymErr Nat)
   | fault
+  deriving DecidableEq
 
 def Out.isFault : Out → Bool
   | .fault => true
